@@ -181,7 +181,7 @@ void harness(void)
 				     VERIF_RW_OK(cn[i], sizeof(rbtree_node_t) + PAY),
 				     C19_OB("fresh"));
 			for (j = 0; j < NN; ++j)
-				VERIF_ASSERT(!VERIF_SAME_OBJECT(cn[i], on[j]),
+				VERIF_ASSERT(C19_DISTINCT(cn[i], on[j]),
 					     C19_OB("fresh"));
 			VERIF_ASSERT((cn[i]->left != NULL) == (SL[i] >= 0) &&
 				     (cn[i]->right != NULL) == (SR[i] >= 0),
